@@ -27,3 +27,21 @@ class Cls(object):
     @staticmethod
     def smeth(x, y=1):
         return ("orig-smeth", x, y)
+
+
+class VCls(object):
+    """a value object: instances with the same .val are equal and hash alike; .t tells them apart"""
+
+    def __init__(self, t=0, val="same"):
+        self.t = t
+        self.val = val
+
+    def __eq__(self, other):
+        return isinstance(other, VCls) and other.val == self.val
+
+    def __hash__(self):
+        return 23
+
+    @asynq.asynq()
+    def meth(self, x, y=1):
+        return ("orig-vmeth", self.t, x, y)
